@@ -203,3 +203,23 @@ func TestRegressionDeepJSONNestingIsBounded(t *testing.T) {
 		t.Fatal("1.5 million nesting levels were decoded")
 	}
 }
+
+type regCoded struct {
+	A uint8 `serix:""`
+}
+
+// MapDecode formatted the raw value under the "type" key into its error message (%d): fmt walks nested slices without a
+// limit, a value nested a million levels ended in a fatal stack overflow (found by an independent auditor).
+func TestRegressionMapDecodeTypeKeyOfWrongShape(t *testing.T) {
+	api := serix.NewAPI()
+	if err := api.RegisterTypeSettings(regCoded{}, serix.TypeSettings{}.WithObjectType(uint8(3))); err != nil {
+		t.Fatal(err)
+	}
+	var nested any = []any{}
+	for i := 0; i < 1_200_000; i++ {
+		nested = []any{nested}
+	}
+	if err := api.MapDecode(context.Background(), map[string]any{"type": nested, "a": float64(1)}, &regCoded{}); err == nil {
+		t.Fatal("a document whose type key holds a nested array was decoded")
+	}
+}
